@@ -43,6 +43,10 @@ func runStatic(prog *Prog, sc StaticCheck) *StaticResult {
 		return runStructInit(prog, sc)
 	case "field-unset":
 		return runFieldUnset(prog, sc)
+	case "type-immutable":
+		return runTypeImmutable(prog, sc)
+	case "forbid-map-range":
+		return runForbidMapRange(prog, sc)
 	case "call-order":
 		return runCallOrder(prog, sc)
 	case "import-check":
@@ -973,5 +977,142 @@ func runFieldUnset(prog *Prog, sc StaticCheck) *StaticResult {
 	}
 	_ = seenType
 	res.Samples = append(res.Samples, map[string]interface{}{"obligation": "no function of the module stores to " + sc.Args["fields"], "backend": "static store scan", "functions": nfn})
+	return res
+}
+
+// runTypeImmutable: objects of a struct type are read-only after construction. No function of the module other than
+// the listed constructors stores to ANY field of the type (fields are found by type, so a field added later is
+// covered), and no field's address is used for anything but a load — an address handed to a callee (a method with
+// pointer receiver on an embedded buffer, sync.Once.Do, Lock) could be written through. args: type = "pkg.Type",
+// constructors = comma-separated contract names in sc.Pkg, allow_addr_fields = fields whose address may be passed on.
+func runTypeImmutable(prog *Prog, sc StaticCheck) *StaticResult {
+	res := &StaticResult{Name: sc.Name, Kind: sc.Kind}
+	ctors := map[*ssa.Function]bool{}
+	for _, c := range strings.Split(sc.Args["constructors"], ",") {
+		if c = strings.TrimSpace(c); c != "" {
+			fn := prog.FindFunc(modPath+"/"+sc.Pkg, c)
+			if fn == nil {
+				res.Obligations++
+				res.Failures = append(res.Failures, "binding: constructor "+c+" not found")
+				continue
+			}
+			ctors[fn] = true
+		}
+	}
+	allowAddr := map[string]bool{}
+	for _, f := range strings.Split(sc.Args["allow_addr_fields"], ",") {
+		if f = strings.TrimSpace(f); f != "" {
+			allowAddr[f] = true
+		}
+	}
+	want := sc.Args["type"]
+	found := false
+	nfn := 0
+	for fn := range ssautil.AllFunctions(prog.SSA) {
+		if fn.Blocks == nil {
+			continue
+		}
+		pk := fn.Pkg
+		for q := fn; pk == nil && q != nil; q = q.Parent() {
+			pk = q.Pkg
+		}
+		if pk == nil || !strings.HasPrefix(pk.Pkg.Path(), modPath) {
+			continue
+		}
+		top := fn
+		for top.Parent() != nil {
+			top = top.Parent()
+		}
+		nfn++
+		for _, b := range fn.Blocks {
+			for _, in := range b.Instrs {
+				fa, ok := in.(*ssa.FieldAddr)
+				if !ok {
+					continue
+				}
+				stT := fa.X.Type().Underlying().(*types.Pointer).Elem()
+				named, ok := stT.(*types.Named)
+				if !ok || named.Obj().Pkg() == nil || named.Obj().Pkg().Name()+"."+named.Obj().Name() != want {
+					continue
+				}
+				found = true
+				if ctors[top] {
+					continue
+				}
+				fname := stT.Underlying().(*types.Struct).Field(fa.Field).Name()
+				res.Obligations++
+				bad := ""
+				for _, r := range *fa.Referrers() {
+					switch u := r.(type) {
+					case *ssa.UnOp:
+						// load
+					case *ssa.DebugRef:
+					case *ssa.Store:
+						if u.Addr == fa {
+							bad = "stores to"
+						} else {
+							bad = "stores the address of"
+						}
+					default:
+						if !allowAddr[fname] {
+							bad = "passes on the address of"
+						}
+					}
+				}
+				if bad != "" {
+					res.Failures = append(res.Failures, fmt.Sprintf("%s %s field %s of %s at %s (objects of this type are read-only after construction)", fn.String(), bad, fname, want, posOf(prog, fa.Pos())))
+				} else {
+					res.Discharged++
+				}
+			}
+		}
+	}
+	if !found {
+		res.Obligations++
+		res.Failures = append(res.Failures, "binding: no field access of type "+want+" found (stale clause)")
+	}
+	res.Samples = append(res.Samples, map[string]interface{}{"obligation": "fields of " + want + " are only loaded outside " + sc.Args["constructors"], "backend": "static def-use scan", "functions": nfn})
+	return res
+}
+
+// runForbidMapRange: the listed functions (and their closures) contain no range over a map: the order in which they
+// produce output cannot depend on map iteration order. args: funcs = comma-separated contract names in sc.Pkg.
+func runForbidMapRange(prog *Prog, sc StaticCheck) *StaticResult {
+	res := &StaticResult{Name: sc.Name, Kind: sc.Kind}
+	for _, name := range strings.Split(sc.Args["funcs"], ",") {
+		name = strings.TrimSpace(name)
+		if name == "" {
+			continue
+		}
+		res.Obligations++
+		fn := prog.FindFunc(modPath+"/"+sc.Pkg, name)
+		if fn == nil {
+			res.Failures = append(res.Failures, "binding: function "+name+" not found")
+			continue
+		}
+		bad := ""
+		var rec func(f *ssa.Function)
+		rec = func(f *ssa.Function) {
+			for _, b := range f.Blocks {
+				for _, in := range b.Instrs {
+					if rg, ok := in.(*ssa.Range); ok {
+						if _, isMap := rg.X.Type().Underlying().(*types.Map); isMap {
+							bad = posOf(prog, rg.Pos())
+						}
+					}
+				}
+			}
+			for _, a := range f.AnonFuncs {
+				rec(a)
+			}
+		}
+		rec(fn)
+		if bad != "" {
+			res.Failures = append(res.Failures, fmt.Sprintf("%s ranges over a map at %s: the order of what it produces may depend on map iteration order", name, bad))
+		} else {
+			res.Discharged++
+		}
+	}
+	res.Samples = append(res.Samples, map[string]interface{}{"obligation": "no range over a map in " + sc.Args["funcs"], "backend": "static scan"})
 	return res
 }
